@@ -506,3 +506,52 @@ def r6(ctx):
         yield VIOL("C12-R6", "content-type/media-type", "; ".join(sorted(set(probs))), where=c.span_of_block(aggs[0][0]))
     else:
         yield PASS("C12-R6", "content-type/media-type", "content_type <= trim_ascii(first ';'-separated part of the header bytes)", [site(c, aggs[0][0], "ContentTypeCharset")])
+
+
+@M.rule("C12-R7", "Content-Type options: each ';' part is trimmed on both sides and cut at its first '=' only")
+def r7(ctx):
+    """`text/x; charset=utf-8` / `;charset = ..`: the option name is compared after trimming ASCII whitespace on both
+    sides; the value is everything after the option's FIRST '=' (splitn(2) / split_once), not a piece of it."""
+    c = ctx.fn(CTC)
+    bodies = [c] + ctx.facts.find_bodies("^" + re.escape(CTC) + r"::\{closure#\d+\}")
+    ctx.count(2)
+    def full_trim(sl):
+        return bool(sl.has_call(r"canonical::trim_ascii$|slice::(ascii::)?<impl \[u8\]>::trim_ascii$|str>::trim$") or any(re.search(r"trim_ascii$", x.get("fn", "") or "") for x in sl.consts))
+
+    probs = []
+    names = []
+    for bi, t in cmp_calls(c, r"PartialEq::(eq|ne)$"):
+        sides = [c.slice_op(x) for x in t["args"]]
+        if any("charset" in sl_.const_values() for sl_ in sides):
+            names += [sl_ for sl_ in sides if "charset" not in sl_.const_values()]
+    for bi, t in c.calls(r"eq_ignore_ascii_case$"):
+        sides = [c.slice_op(x) for x in t["args"]]
+        if any("charset" in sl_.const_values() or b"charset" in sl_.const_values() for sl_ in sides):
+            names += [sl_ for sl_ in sides if not ("charset" in sl_.const_values() or b"charset" in sl_.const_values())]
+    if not names:
+        probs.append("comparison of an option name with \"charset\" not found")
+    elif not all(full_trim(sl_) for sl_ in names):
+        probs.append("the option name compared with \"charset\" is not trimmed on both sides (` charset=..` is no longer recognised)")
+    for bi, i, s_ in c.aggregates(adt=r"canonical::ContentTypeCharset$"):
+        rv = s_["rv"]
+        if "charset" in rv.get("fields", []):
+            o_ = rv["ops"][rv["fields"].index("charset")]
+            sl_ = c.slice_op(o_)
+            if sl_.has_call(r"HeaderMap::<T>::get$") and not full_trim(sl_):
+                probs.append("the charset value is not cut from a part trimmed on both sides")
+    if probs:
+        yield VIOL("C12-R7", "content-type/option-trim", "; ".join(probs), where=loc(c.j["span"]))
+    else:
+        yield PASS("C12-R7", "content-type/option-trim", "option name and value come from parts trimmed with trim_ascii (both sides)", [])
+    bad = []
+    for b_ in bodies:
+        for bi, t in b_.calls(r"slice::<impl \[T\]>::splitn$|str>::splitn$"):
+            n_ = const_value(op_const(b_.resolve_copy(t["args"][1])) or {})
+            if n_ != 2:
+                bad.append((b_, bi, n_))
+        for bi, t in b_.calls(r"slice::<impl \[T\]>::(rsplitn|rsplit|rsplit_once)$|str>::(rsplitn|rsplit|rsplit_once)$"):
+            bad.append((b_, bi, t["callee"].split("::")[-1]))
+    if bad:
+        yield VIOL("C12-R7", "content-type/option-split", "an option is not cut at its first '=' into name and value (%s): `charset=utf-8=x` would select utf-8" % bad[0][2], where=bad[0][0].span_of_block(bad[0][1]))
+    else:
+        yield PASS("C12-R7", "content-type/option-split", "options cut with splitn(2, '=') / split_once", [])
